@@ -272,7 +272,7 @@ func (rl *Shell) viBackwardChar() {
 	}
 
 	for i := 1; i <= vii; i++ {
-		if (*rl.line)[rl.cursor.Pos()-1] == '\n' {
+		if rl.cursor.Pos() == 0 || (*rl.line)[rl.cursor.Pos()-1] == '\n' {
 			break
 		}
 
